@@ -196,8 +196,8 @@ def mag_of(value, qm):
     return e
 
 
-def leaf_class(kind):
-    """constructor for the leaves of an expression program: Scalar, or a one-element Array over the given container kind"""
+def leaf_class(kind, empty=False):
+    """constructor for the leaves of an expression program: Scalar, or a one-element (or empty) Array over the given container kind"""
     from barril.units import Array, Scalar
 
     if not kind:
@@ -206,6 +206,8 @@ def leaf_class(kind):
     from symx.shims import SymArray
 
     def mk(x, unit, cat):
+        if empty:
+            return Array({"list": [], "tuple": ()}.get(kind, numpy.array([], dtype=float)), unit, cat)
         if kind == "list":
             return Array([x], unit, cat)
         if kind == "tuple":
@@ -218,6 +220,9 @@ def leaf_class(kind):
 def first_value(o):
     v = o.GetAbstractValue()
     import numpy
+
+    if isinstance(v, (list, tuple, numpy.ndarray)) and len(v) == 0:
+        return None
 
     return v[0] if isinstance(v, (list, tuple, numpy.ndarray)) else v
 
